@@ -1,6 +1,6 @@
 from __future__ import annotations
 
-from functools import wraps
+from functools import partial, wraps
 
 import numpy as np
 
@@ -200,22 +200,28 @@ def count(a, axis=None, keepdims=False, split_every=None):
     )
 
 
+def _like(func, a, kwargs):
+    a = asanyarray(a)
+    if kwargs.get("dtype") is not None:
+        # map_blocks keeps ``dtype=`` for itself (the dtype it announces); the
+        # function has to be told as well
+        func = partial(func, dtype=kwargs["dtype"])
+    return a.map_blocks(func, **kwargs)
+
+
 @derived_from(np.ma.core)
 def ones_like(a, **kwargs):
-    a = asanyarray(a)
-    return a.map_blocks(np.ma.core.ones_like, **kwargs)
+    return _like(np.ma.core.ones_like, a, kwargs)
 
 
 @derived_from(np.ma.core)
 def zeros_like(a, **kwargs):
-    a = asanyarray(a)
-    return a.map_blocks(np.ma.core.zeros_like, **kwargs)
+    return _like(np.ma.core.zeros_like, a, kwargs)
 
 
 @derived_from(np.ma.core)
 def empty_like(a, **kwargs):
-    a = asanyarray(a)
-    return a.map_blocks(np.ma.core.empty_like, **kwargs)
+    return _like(np.ma.core.empty_like, a, kwargs)
 
 
 @derived_from(np.ma.core)
